@@ -406,12 +406,7 @@ class EquationSolver(object):
             Logger('Had evaluation errors')
             raise ValueError(last_error)
         Logger('Number of iterations: {0}'.format(num_tries), priority=3)
-        # Then: append values to the time series
-        varlist = [x[0] for x in self.Parser.Endogenous] + [x[0] for x in self.Parser.Lagged]
-        for var in varlist:
-            assert (len(self.TimeSeries[var]) == step)
-            self.TimeSeries[var].append(initial[var])
-        # Finally: augment with decorative variables
+        # Next: augment with decorative variables
         # This is complicated as decorative variables may depend upon other decorative variables
         # Create a holding variable that lists the equations, and keep iterating through the list
         vars_to_compute = []
@@ -424,7 +419,6 @@ class EquationSolver(object):
                 try:
                     val = eval(eqn, globals(), initial)
                     initial[var] = val
-                    self.TimeSeries[var].append(val)
                 except NameError:
                     failed.append((var, eqn))
             # If we failed on every single decoration variable, something is wrong.
@@ -438,6 +432,13 @@ class EquationSolver(object):
                     Logger(out)
                 raise ValueError('Cannot solve decoration equations!\n'+out)
             vars_to_compute = failed
+        # Finally: append values to the time series. This is done only once every variable of the step
+        # (decorative ones included) has been evaluated, so that an error leaves all series the same length.
+        varlist = [x[0] for x in self.Parser.Endogenous] + [x[0] for x in self.Parser.Lagged] + \
+                  [x[0] for x in self.Parser.Decoration]
+        for var in varlist:
+            assert (len(self.TimeSeries[var]) == step)
+            self.TimeSeries[var].append(initial[var])
 
     def SolveEquation(self):
         if len(self.VariableList) == 0:
